@@ -288,9 +288,36 @@ def no_override_rule(ctx, run):
             run.fail(Finding("C17.R7", cls, "; ".join(bad)[:300], "this derivative replaces the forwarding of casts to its underliers", file=str(prog.modules[ci.module].path), line=ci.node.lineno))
 
 
+def derived_series_rule(ctx, run):
+    """R7 (derived series): the read-only series of every primary (spot, volatility, variance) are recomputed from the buffers on each
+    access and leave nothing on the instrument - a memoised tensor keeps the dtype/device it had before a later to()."""
+    from ..purity import stores
+    prog, interp = ctx.prog, ctx.interp
+    for cls in primary_classes(prog):
+        short = cls.rsplit(".", 1)[-1]
+        for prop_ in ("spot", "volatility", "variance"):
+            fi = prog.lookup_method(cls, prop_)
+            if fi is None:
+                continue
+            o = Obj(cls, "stock")
+            o.attrs["__buf_spot"] = W.tensor("stock.spot", "buffer")
+            o.attrs["__buf_variance"] = W.tensor("stock.variance", "buffer")
+            o.attrs["__buf_volatility"] = W.tensor("stock.volatility", "buffer")
+            try:
+                res = interp.explore(fi, [], {}, self_obj=o)
+            except Unsupported as ex:
+                raise AnalysisError(f"{short}.{prop_}: {ex}")
+            st = stores(res)
+            run.oblige("C17.R7", f"{short}.{prop_} keeps no state on the instrument", not st, "; ".join(st))
+            if st:
+                run.fail(Finding("C17.R7", fi.qualname, f"{short}.{prop_}: " + "; ".join(st), "a series remembered on the instrument is not re-cast by to(): it keeps the dtype/device it was computed in",
+                                 file=str(prog.modules[fi.module].path), line=fi.node.lineno))
+
+
 _check_before_override = check
 
 
 def check(ctx, run):  # noqa: F811
     _check_before_override(ctx, run)
     no_override_rule(ctx, run)
+    derived_series_rule(ctx, run)
